@@ -655,6 +655,9 @@ func genClientFaults(g *G, p *profile, sc *Scenario, c *ClientSpec, pi, pt int) 
 	}
 	if g.p(p.pClientClose) {
 		c.CloseAtMs = g.rng(1, h*4/5)
+		if c.Transport == "polling" && g.p(0.5) {
+			c.CloseTrail = g.rng(1, 2)
+		}
 	}
 	if c.Transport == "polling" && g.p(p.pClientFault*0.15) {
 		c.AbortHS = true
